@@ -135,10 +135,10 @@ theorem nameInlinedSchemas_nf (fc : Facts) (x : Ext) (o : Opts) (s : St) (ops : 
 theorem depthFirst_nil : SortRef.depthFirst [] = [] := by
   simp [SortRef.depthFirst, SortRef.depthGroupOrder]
 
-theorem namePointers_nf (fc : Facts) (x : Ext) (o : Opts) (s : St) (ops : List (String × OpRef))
+theorem namePointersPass_nf (fc : Facts) (x : Ext) (o : Opts) (s : St) (ops : List (String × OpRef))
     (hops : opRefsByRef x s.idx = .ok ops) (hi : s.idx = Analyzer.analyze fc s.doc) (hc : s.ctx.newRefs = [])
-    (h : nfPointers x s = true) : namePointers fc x o s = .ok s := by
-  unfold namePointers
+    (h : nfPointers x s = true) : namePointersPass fc x o s = .ok (s, false) := by
+  unfold namePointersPass
   dsimp only
   refine Eq.trans (bind_of_ok _ (foldlM_idle _ [] _ ?_)) ?_
   · intro kv hk
@@ -155,6 +155,15 @@ theorem namePointers_nf (fc : Facts) (x : Ext) (o : Opts) (s : St) (ops : List (
   · rw [hops, ok_bind]
     simp only [List.map_nil, depthFirst_nil, List.foldlM, Pure.pure, ok_bind]
     rw [reload_eq_self fc s hi, syncNewRefs_eq_self s hc]
+
+theorem namePointers_nf (fc : Facts) (x : Ext) (o : Opts) (s : St) (ops : List (String × OpRef))
+    (hops : opRefsByRef x s.idx = .ok ops) (hi : s.idx = Analyzer.analyze fc s.doc) (hc : s.ctx.newRefs = [])
+    (h : nfPointers x s = true) : namePointers fc x o s = .ok s := by
+  unfold namePointers
+  rw [show 8 + (allRefs s.idx).length = (7 + (allRefs s.idx).length) + 1 by omega]
+  unfold namePointersLoop
+  rw [namePointersPass_nf fc x o s ops hops hi hc h]
+  rfl
 
 theorem stripOAIGen_nf (fc : Facts) (x : Ext) (s : St) (hi : s.idx = Analyzer.analyze fc s.doc)
     (hc : s.ctx.newRefs = []) : stripOAIGen fc x s = .ok (s, false) := by
